@@ -1317,6 +1317,75 @@ class CompositionSuite(SystemSuite):
         return StartStopSuite.oracle_C01(self, case, out)
 
 
+class QueuedStartSuite(CompositionSuite):
+    """Server mode: a composition is selected between two touches and starts on the OTHER stroke than what was
+    rung before (handstroke-start method, then a composition with 1 or 3 opening rounds; or the reverse).
+    The up-down-in count of opening rows belongs to the generator that is about to be rung."""
+    name = "queued_start"
+    coq_cap = {"quick": 60}
+
+    def scenarios(self, rng, tier):
+        for _ in range(60 if tier == "quick" else 600):
+            p = comp_payload(rng)
+            stage = p["stage"]
+            n = min(16, stage + rng.choice([0, 0, 1]))
+            dur = Fraction(1, 8)
+            look_to = Fraction(131, 1000)
+            sch = Schedule(look_to, dur)
+            evs = [ev(0, "global", [True] * n), ev(Fraction(11, 1000), "user_entered", 1, "Wheatley")]
+            for b in range(1, n + 1):
+                evs.append(ev(Fraction(12, 1000) + Fraction(b, 100000), "assign", b, 1))
+            first = rng.choice(["method", "comp"])
+            p1 = comp_payload(rng)
+            p1["stage"] = stage
+            if first == "method" or len(p1["rows"][0][0]) != stage:
+                first = "method"
+                evs.append(ev(Fraction(8, 100), "row_gen", {"type": "method", "stage": stage, "notation": "x1"}))
+            else:
+                evs.append(ev(Fraction(8, 100), "row_gen", {"type": "composition", "url": "7001"}, p1))
+            evs.append(ev(look_to, "call", "Look to"))
+            evs.append(ev(sch.wait(2 * n + 1, Fraction(1, 3)), "call", "Stand next"))
+            t_end = sch.end_of(4 * n)
+            evs.append(ev(t_end + Fraction(3, 10) + Fraction(1, 977), "row_gen", {"type": "composition", "url": "7002"}, p))
+            look2 = t_end + Fraction(1, 2) + Fraction(1, 991)
+            evs.append(ev(look2, "call", "Look to"))
+            nrows = len(p["rows"]) + 7
+            horizon = look2 + (nrows * n) * (dur + Fraction(1, 100)) + Fraction(1, 3000)
+            sc = {"gen": {"kind": "placeholder"}, "udi": True, "stop_at_rounds": False, "call_comps": True,
+                  "name": "Wheatley", "instance": 5,
+                  "rhythm": {"kind": "scripted", "durs": [fstr(dur)] * ((nrows + 6) * n + 8)},
+                  "delta": fstr(rng.choice([0, Fraction(1, 1000)])), "horizon": fstr(horizon), "events": sorted_events(evs)}
+            yield {"scenario": sc, "gen": {"kind": "complib", "payload": p}, "udi": True, "call_comps": True,
+                   "horizon": fstr(horizon), "oracle": {"n": n, "look2": fstr(look2), "first": first, "humans": []}}
+
+    def to_coq(self, case, out):
+        return scenario_coq(case["scenario"], out, self.fuel, self.tol, self.min_margin)
+
+    def run_impl(self, case):
+        return sim.run_scenario(case["scenario"], gens.build_impl_generator)
+
+    def oracle_C06(self, case, out):
+        if "trace" not in out:
+            return None
+        if out["outcome"][0] == "crashed":
+            return f"main loop died: {out['outcome'][1:3]} (composition selected between two touches, up-down-in)"
+        n = case["oracle"]["n"]
+        t2 = Fraction(case["oracle"]["look2"])
+        got = [(r, bells, t) for (r, bells, t) in rows_rung(out) if len(bells) == n and t > t2]
+        made = [x for x in calls_made(out) if x[0] > t2]
+        st = [x for x in strikes(out) if x[0] > t2]
+        if not got:
+            return "the composition selected before the second Look to was not rung at all"
+        return self.one_touch(case, got, made, st, None, "second touch (composition selected after a "
+                              + case["oracle"]["first"] + "): ")
+
+    oracle_C16 = oracle_C06
+    oracle_C19 = oracle_C06
+
+    def oracle_C01(self, case, out):
+        return None
+
+
 # ============================================================================= C09: never ahead of a human
 def wait_session(rng, tier):
     n = rng.choice([4, 5, 6, 6, 8])
